@@ -20,7 +20,7 @@ PROP = "C15"
 RULE = (
     "graphs = every digraph on <=4 labelled nodes incl. self-loops (quick) / plus every loop-free digraph on 5 nodes "
     "(thorough), each under 3 name assignments; Hypothesis digraphs of 6-14 nodes (layered DAGs with diamonds and late "
-    "roots, one back edge, unknown name, isolated node, key mismatch); spec graphs of every shipped model kind. "
+    "roots) and deep chain-like graphs of 6-40 nodes (a path through all nodes plus skip edges), each possibly with one back edge, unknown name, isolated node, key mismatch; spec graphs of every shipped model kind. "
     "Non-trivial = acyclic accepted graph with a diamond (two distinct directed paths between a pair) and >=2 roots, "
     "or a rejected cyclic graph whose cycle is not reachable from any root; distinct by (names, edge set)."
 )
@@ -29,7 +29,7 @@ ASSUMPTIONS = [
     "Refusal = any ValueError-family exception (LeaspyInputError is a ValueError); any other exception or a returned object for an invalid graph is a violation.",
     "Determinism is checked against re-insertion orders, shuffled frozenset construction and PYTHONHASHSEED in {0,1,2,3} sub-processes.",
 ]
-REQUIRED_CLASSES = {"valid": 0.0005, "cyclic": 0.02, "diamond": 0.0005}
+REQUIRED_CLASSES = {"valid": 0.0005, "cyclic": 0.02, "diamond": 0.0005, "sampled:deep-chain": 150}
 
 NAME_SETS = {
     "asc": ["a", "b", "c", "d", "e"],
@@ -212,13 +212,22 @@ def graph_strategy():
 
     @st.composite
     def _g(draw):
-        n = draw(st.integers(6, 14))
-        alphabet = ["v%02d" % i for i in range(40)] + ["A", "b", "Zz", "x_1", "x_10", "x_2", "é", "nll_attach", "0"]
+        shape = draw(st.sampled_from(["layered", "layered", "chain"]))
+        n = draw(st.integers(6, 14)) if shape == "layered" else draw(st.integers(6, 40))
+        alphabet = ["v%02d" % i for i in range(60)] + ["A", "b", "Zz", "x_1", "x_10", "x_2", "é", "nll_attach", "0"]
         names = draw(st.lists(st.sampled_from(alphabet), min_size=n, max_size=n, unique=True))
         # layered DAG along a drawn hidden order
         hidden = draw(st.permutations(names))
         edges = set()
-        for j in range(1, n):
+        if shape == "chain":
+            # long dependency chains (deep graphs): a path through all nodes plus a few skip edges
+            for j in range(1, n):
+                edges.add((hidden[j - 1], hidden[j]))
+            for _ in range(draw(st.integers(0, 4))):
+                a = draw(st.integers(0, n - 2))
+                b = draw(st.integers(a + 1, n - 1))
+                edges.add((hidden[a], hidden[b]))
+        for j in range(1, n if shape == "layered" else 1):
             k = draw(st.integers(0, min(3, j)))
             if k:
                 for a in draw(st.lists(st.integers(0, j - 1), min_size=k, max_size=k, unique=True)):
@@ -254,7 +263,7 @@ def graph_strategy():
         elif kind == "key-mismatch":
             keys = nodes[:-1] if draw(st.booleans()) else nodes + ["extra_key"]
         order = draw(st.permutations(nodes))
-        return dict(nodes=list(order), edges=[list(e) for e in edges], keys=keys, kind=kind)
+        return dict(nodes=list(order), edges=[list(e) for e in edges], keys=keys, kind=kind, shape=shape)
 
     return _g()
 
@@ -268,6 +277,8 @@ def body_sampled(col: Collector, case):
     else:
         info = check_graph(col, nodes, edges, sub_check="sampled")
     classes = ["sampled:" + case.get("kind", "?"), "valid" if info["valid"] else "invalid"]
+    if case.get("shape") == "chain":
+        classes.append("sampled:deep-chain")
     if info["cyclic"]:
         classes.append("cyclic")
     nt = nontrivial_of(nodes, edges, info) if keys is None else None
